@@ -62,6 +62,9 @@ def corpus_jobs(tier, want_mutants=0, solvers=("linear",), e2e_limit=None, run=T
         for name, p in e2e:
             jobs.append({"id": name + sfx, "kind": "cairo", "path": p, "solver": solver,
                          "mutants": max(0, want_mutants // 4), "max_funcs": 3, "run": run})
+        if run:
+            import bounded_sweep
+            jobs.extend(bounded_sweep.jobs(tier, solver))
         if tier == "thorough":
             for p in sorted(glob.glob(os.path.join(REPO, "crates", "**", "*.sierra"), recursive=True)):
                 jobs.append({"id": "sierra_" + os.path.basename(p)[:-7] + sfx, "kind": "sierra", "path": p,
